@@ -116,7 +116,40 @@ let p_obs s =
        | _ -> raise (Unparsable ("creation " ^ h)))
   | _ -> raise (Unparsable "observation")
 
+(* hook cases: the fill is the real decoder (no fill events are recorded); the verdict compares
+   every product with the specification-side function expected_arg *)
+let predict_hook (f : string list) (obs : string) : string * string * bool =
+  match f with
+  | ["hook"; cfg; def; req; ub; k] ->
+      let sh = { sh_ret = RPlugin; sh_cfg = (if cfg = "S" then CStruct else CPtr); sh_cerr = true; sh_perr = false;
+                 sh_def = (if def = "-" then DefNone else DefVal); sh_rt = TImpl } in
+      let o0 = oracle_of [] [] [] in
+      let o = { o0 with o_fill = (fun _ seen -> { va = seen.va; vb = n_of_string ub; vc = seen.vc }) } in
+      let kk = int_of_string k in
+      let cs = { cs_shape = sh; cs_req = (if req = "N" then ReqNew else ReqFactory true); cs_hf = true; cs_k = nat_of_int kk } in
+      let nofill = List.filter (function EvFill _ -> false | _ -> true) in
+      let strip = List.map (fun (e, out) -> (nofill e, out)) in
+      let pred = s_obs (match run_case cs o with
+                        | ObsNew calls -> ObsNew (strip calls)
+                        | ObsFactory (cev, e, calls) -> ObsFactory (nofill cev, e, strip calls)
+                        | x -> x) in
+      let expected_op j =
+        let nj = nat_of_int j in
+        let st = { s_alloc = nj; s_def = (if def = "-" then O else nj); s_fill = nj; s_ctor = nj; s_prod = O } in
+        let a = expected_arg sh true o st in
+        ((if def = "-" then [] else [EvDefault nj]) @ [EvCtor (nj, a)], OOk { p_ctor = nj; p_arg = a; p_prod = None }) in
+      let want = List.init kk expected_op in
+      let v =
+        (match p_obs obs with
+         | ObsNew calls when req = "N" -> verdict (calls = want) "product not built from default overlaid by the decoded settings"
+         | ObsFactory ([], None, calls) when req <> "N" -> verdict (calls = want) "product not built from a fresh default overlaid by the decoded settings"
+         | _ -> "BAD:unexpected-form"
+         | exception Unparsable what -> "BAD:outside-the-model(" ^ what ^ ")") in
+      (pred, v, true)
+  | _ -> ("unknown-case", "BAD:unknown-case", false)
+
 let predict (c : string) (obs : string) : string * string * bool =
+  if String.length c > 5 && String.sub c 0 5 = "hook " then predict_hook (split_blank c) obs else
   let (cs, o) = case_of (split_blank c) in
   let pred = s_obs (run_case cs o) in
   let v =
